@@ -255,6 +255,14 @@ def generate(ctx):
         for sform in forms:
             cases.append(dict(ctx=ectx, t=None, s=sform,
                               xs=[dict(d=None, text=""), dict(d=None, text="v"), dict(d=star, text=" * ")]))
+    # function types whose RESULT has a declarator tail (returns pointer-to-array / pointer-to-function): the hole of
+    # fb_build_name lies in the middle of the name; short fixed cases with '*', '[2]' and ' v'
+    arr2 = dict(G.empty_decl(), arrays=[["lit", "2"]])
+    for sform in ["int(*(*)(int))[5]", "int(*(*)(void))(int)", "char(*(*[3])(int))[2]", "void(*(*(*)(char))(int))[4]",
+                  "long(*(**)(int, ...))[2][3]"]:
+        cases.append(dict(ctx=ectx, t=None, s=sform,
+                          xs=[dict(d=None, text=""), dict(d=None, text="v"), dict(d=star, text="*"),
+                              dict(d=arr2, text="[2]")]))
     return cases
 
 
@@ -333,21 +341,47 @@ def evaluate(ctx, cases):
     s = ctx.scratch()
     # argument descriptions of the suffixes are obtained from the implementation too (typeof of the argument)
     payload = dict(groups=[])
+    per_item = []           # per group: [(strings of the item, getctype item)]
     for g in groups:
-        strings = []
+        strings, items = [], []
         for i in g["idx"]:
+            mine = []
             for x in cases[i]["xs"]:
                 if x["d"] is not None:
                     for f in x["d"]["funcs"]:
                         for a in f["args"]:
-                            strings.append(G.spell(G.tokens(a), None))
-        payload["groups"].append(dict(cdef=G.ctx_cdef(g["ctx"]), strings=strings,
-                                      getctype=[dict(s=cases[i]["s"], x=[x["text"] for x in cases[i]["xs"]])
-                                                for i in g["idx"]]))
+                            mine.append(G.spell(G.tokens(a), None))
+            strings += mine
+            items.append((mine, dict(s=cases[i]["s"], x=[x["text"] for x in cases[i]["xs"]])))
+        per_item.append(items)
+        payload["groups"].append(dict(cdef=G.ctx_cdef(g["ctx"]), strings=strings, getctype=[it for _m, it in items]))
     out, p = s.run_worker("c07_worker.py", payload, timeout=3000)
     if out is None:
-        ctx.violation(cases[0], "worker failed: " + (p.stderr[-1500:] or p.stdout[-500:]))
-        return
+        # the interpreter died (assert/abort/segfault in the backend): isolate the group, then the item
+        def tail(pp):
+            return " | ".join([l for l in (pp.stderr or "").splitlines() if l.strip()][-3:])[-500:]
+        outg = []
+        for g, pg, items in zip(groups, payload["groups"], per_item):
+            o1, p1 = s.run_worker("c07_worker.py", dict(groups=[pg]), timeout=1500)
+            if o1 is not None:
+                outg.append(o1["groups"][0])
+                continue
+            results, gct, cdef_error = [], [], None
+            for mine, it in items:
+                o2, p2 = s.run_worker("c07_worker.py", dict(groups=[dict(cdef=pg["cdef"], strings=mine, getctype=[it])]),
+                                      timeout=300)
+                if o2 is None:
+                    died = "the interpreter died (rc=%s): %s" % (p2.returncode, tail(p2))
+                    results += [dict(py=dict(err="died"), c=dict(err="died")) for _ in mine]
+                    gct.append(dict(py=dict(died=died), c=dict(died=died)))
+                elif "cdef_error" in o2["groups"][0]:
+                    cdef_error = o2["groups"][0]
+                    break
+                else:
+                    results += o2["groups"][0]["results"]
+                    gct += o2["groups"][0]["getctype"]
+            outg.append(cdef_error or dict(results=results, getctype=gct))
+        out = dict(groups=outg)
     coq_lits, owner = [], []
     gcc_cases = []
     for gi, (g, r) in enumerate(zip(groups, out["groups"])):
@@ -367,10 +401,33 @@ def evaluate(ctx, cases):
                             a["_desc"] = dict(py=rr["py"].get("ok"), c=rr["c"].get("ok"))
             for side in ("py", "c"):
                 rs = res[side]
+                if "died" in rs:
+                    if side == "py":
+                        ctx.violation(dict(c), "typeof/getctype round trip of the type %r with suffixes %r: %s" % (
+                            c["s"], [x["text"] for x in c["xs"]], rs["died"]))
+                    continue
                 if "err" in rs:
                     ctx.hist("base type", "rejected by " + side)
                     continue
                 ctx.count()
+                if rs.get("desc_err") or rs.get("getctype_err"):
+                    # the type exists but its name cannot be taken apart / printed: report the concrete type, and for
+                    # every suffix what getctype produced and whether it re-parses (one replay per item)
+                    ctx.violation(dict(c, xs=[]), "%s FFI: type %r (ct_name %r): %s" % (
+                        side, c["s"], rs["cname"], rs.get("desc_err") or rs.get("getctype_err")),
+                        finding_key(side, rs["cname"]))
+                    if rs.get("getctype") is not None and rs["roundtrip_is"] is not True:
+                        ctx.violation(dict(c, xs=[]), "%s FFI: typeof(getctype(T)) is not T: T = %r from %r, getctype(T) = %r (%s)"
+                                      % (side, rs["cname"], c["s"], rs["getctype"],
+                                         rs.get("roundtrip_err") or rs.get("roundtrip_desc")))
+                    for x, xr in zip(c["xs"], rs["x"]):
+                        if x["d"] is None:
+                            continue
+                        out_x = xr.get("err") or xr.get("typeof", {}).get("err")
+                        if out_x:
+                            ctx.violation(dict(c, xs=[x]), "%s FFI: getctype(%r, %r) = %r on the type %r: %s" % (
+                                side, rs["cname"], x["text"], xr.get("text"), c["s"], out_x))
+                    continue
                 ctx.hist("base kind", rs["desc"][0])
                 # (a) typeof(getctype(T)) is T
                 if rs["roundtrip_is"] is not True:
@@ -394,13 +451,15 @@ def evaluate(ctx, cases):
                     if want is not None and want[0] == "func_raw":
                         want = None              # a function type, not a pointer to function: typeof refuses
                     if "err" in xr:
-                        ctx.violation(c, "%s FFI: getctype(%r, %r) raised %s" % (side, rs["cname"], x["text"], xr["err"]))
+                        ctx.violation(dict(c, xs=[x]), "%s FFI: getctype(%r, %r) raised %s (type string %r)" % (
+                            side, rs["cname"], x["text"], xr["err"], c["s"]))
                         continue
                     got = xr["typeof"].get("ok")
                     ctx.nontrivial((c["s"], x["text"]))
                     if got != want:
-                        ctx.violation(c, "%s FFI: getctype(%r, %r) = %r re-parses to %r, the declarator denotes %r" % (
-                            side, rs["cname"], x["text"], xr["text"], xr["typeof"], want), finding_key(side, rs["cname"]))
+                        ctx.violation(dict(c, xs=[x]), "%s FFI: getctype(%r, %r) = %r re-parses to %r, the declarator denotes %r"
+                                      " (type string %r)" % (side, rs["cname"], x["text"], xr["text"], xr["typeof"], want, c["s"]),
+                                      finding_key(side, rs["cname"]))
                 # model correspondence
                 T = G.coq_desc(rs["desc"], prim_index, _ctx_for_sizes(g["ctx"], forced))
                 xs_lit = "; ".join("(%s, %s)" % (cstr(x["text"]), cstr(xr.get("text", "<error>")))
